@@ -364,6 +364,32 @@ func (e *Engine) solveAll(o *checkOpts) {
 		}
 		e.obls = keep
 	}
+	{
+		// thin out the return-site probes: first 2 and last 5 per (unit, site)
+		bySite := map[string][]*Obligation{}
+		for _, ob := range e.obls {
+			if ob.Vacuity && strings.Contains(ob.Name, "#cover:return-reachable@") {
+				bySite[ob.Name] = append(bySite[ob.Name], ob)
+			}
+		}
+		drop := map[*Obligation]bool{}
+		for _, l := range bySite {
+			for i, ob := range l {
+				if i >= 2 && i < len(l)-5 {
+					drop[ob] = true
+				}
+			}
+		}
+		if len(drop) > 0 {
+			var keep []*Obligation
+			for _, ob := range e.obls {
+				if !drop[ob] {
+					keep = append(keep, ob)
+				}
+			}
+			e.obls = keep
+		}
+	}
 	e.solveSet(o, e.obls)
 	// combined obligations that failed are replaced by their parts
 	var extra []*Obligation
@@ -533,6 +559,19 @@ func (e *Engine) solveSet(o *checkOpts, obls []*Obligation) {
 	}
 }
 
+// unreachableSites lists return sites all of whose probed paths are infeasible (expected for error branches a callee's
+// contract rules out; a success return in this list means its postconditions were never really checked).
+func unreachableSites(m map[string]*retGroup) []string {
+	var out []string
+	for name, g := range m {
+		if g.sat == 0 && g.unknown == 0 && g.unsat > 0 {
+			out = append(out, strings.Replace(name, "#cover:return-reachable@", " @ ", 1))
+		}
+	}
+	sort.Strings(out)
+	return out
+}
+
 type retGroup struct {
 	sat, unsat, unknown int
 	ob         *Obligation
@@ -616,6 +655,8 @@ func (e *Engine) report(o *checkOpts, units []*Unit, start time.Time, loadSecs, 
 		var unitErrs []string
 		coverOK := 0
 		retCover := map[string]*retGroup{}
+		callCover := map[string]*Obligation{}
+		siteCover := map[string]*retGroup{} // per return site: which ones are proved unreachable on every probed path
 		for _, u := range units {
 			if !contains(contractPropsOrUnit(u), prop) {
 				continue
@@ -641,6 +682,21 @@ func (e *Engine) report(o *checkOpts, units []*Unit, start time.Time, loadSecs, 
 					g = &retGroup{ob: ob}
 					retCover[gk] = g
 				}
+				if strings.Contains(ob.Name, "#cover:return-reachable@") {
+					sg := siteCover[ob.Name]
+					if sg == nil {
+						sg = &retGroup{ob: ob}
+						siteCover[ob.Name] = sg
+					}
+					switch ob.Result.Status {
+					case "sat":
+						sg.sat++
+					case "unsat":
+						sg.unsat++
+					default:
+						sg.unknown++
+					}
+				}
 				switch ob.Result.Status {
 				case "sat":
 					g.sat++
@@ -649,6 +705,13 @@ func (e *Engine) report(o *checkOpts, units []*Unit, start time.Time, loadSecs, 
 					g.unsat++
 				default:
 					g.unknown++
+				}
+				continue
+			}
+			if ob.Vacuity && ob.Kind == "cover" && (strings.Contains(ob.Name, "#cover:before-") || strings.Contains(ob.Name, "#cover:after-")) {
+				callCover[ob.Name] = ob
+				if ob.Result.Status == "sat" {
+					coverOK++
 				}
 				continue
 			}
@@ -683,6 +746,15 @@ func (e *Engine) report(o *checkOpts, units []*Unit, start time.Time, loadSecs, 
 				} else {
 					fails = append(fails, failure{name: gk + "#cover:some-return-reachable", reason: "vacuous", detail: "no return of this unit is reachable under its preconditions, callee contracts and loop invariants: its postconditions hold vacuously", ob: g.ob})
 				}
+			}
+		}
+		for name, after := range callCover {
+			if !strings.Contains(name, "#cover:after-") || after.Result.Status != "unsat" {
+				continue
+			}
+			before := callCover[strings.Replace(name, "#cover:after-", "#cover:before-", 1)]
+			if before != nil && before.Result.Status != "unsat" {
+				fails = append(fails, failure{name: name, reason: "vacuous", detail: "assuming the callee's postconditions makes a path infeasible that was feasible before the call: the callee's contract contradicts what is known at this call site, and everything after the call would hold vacuously", ob: after})
 			}
 		}
 		// group failures by obligation name; match known findings
@@ -754,6 +826,7 @@ func (e *Engine) report(o *checkOpts, units []*Unit, start time.Time, loadSecs, 
 			"level":       "proof",
 			"wall_s":      round3(time.Since(start).Seconds()),
 			"violations":  violations,
+			"return_sites_proved_unreachable": unreachableSites(siteCover),
 			"coverage": map[string]any{
 				"obligations":              nObl,
 				"discharged":               discharged,
